@@ -386,7 +386,11 @@ func c03Run(r *mon.Run) {
 	for ci, g := range cfgs {
 		stats.MannWhitneyExactLimit, stats.MannWhitneyTiesExactLimit = g.u, g.t
 		class := fmt.Sprintf("pairs-limits(%d,%d)", g.u, g.t)
-		r.Parallel(class, npairs, func(w *mon.W, i int) {
+		np := npairs
+		if g.t > defT {
+			np = npairs / 3 // the library's tied exact distribution is expensive beyond 25+25
+		}
+		r.Parallel(class, np, func(w *mon.W, i int) {
 			rng := w.Rng
 			density := i % 5
 			lim := g.u
